@@ -91,10 +91,13 @@ func (f *Field) Char() uint {
 
 // Card returns the cardinality of f.
 func (f *Field) Card() uint {
-	// Error can be ignored since cardinality was given as uint when
-	// constructing the field
-	tmp, _ := auxmath.Pow(f.Char(), f.extDeg)
-	return tmp
+	// The cardinality was given as uint when constructing the field, so the
+	// product cannot overflow. (auxmath.Pow refuses many representable powers.)
+	card := uint(1)
+	for i := uint(0); i < f.extDeg; i++ {
+		card *= f.Char()
+	}
+	return card
 }
 
 // ComputeMultTable will precompute the table of discrete logarithms for the
